@@ -1,6 +1,7 @@
 import Cherab.Drv.Proto
 import Cherab.Model.Adf
 import Cherab.Model.AdfText
+import Cherab.Model.AdfCx
 open Cherab.Drv Cherab.Adf Cherab.Adf.Text
 
 /-!
@@ -222,6 +223,54 @@ def cmdTags : String :=
     showConvs "adf15" convs15,
     "charge " ++ " ".intercalate ([Class11.scd, .acd, .ccd, .plt, .prb, .prc].map fun c => c.code ++ "=" ++ toString c.chargeCorrection)]
 
+/-! ### thermal-CX 2D→3D converter:  `cx3d nEl {el nCh {charge nTr {tr nNe nTe rows cols ne.. te.. rate(row-major rows*cols)..}}}`
+answers `ok el;charge;tr;ne:..;te:..;td:..;rate:<cell>/<cell>..` per entry (cells of one density row joined by `/`, rows by `|`) or `err <kind>` -/
+
+def readCxTrs : Nat → List String → List (String × Rate15 String) × List String
+  | 0, ts => ([], ts)
+  | n + 1, ts =>
+    match ts with
+    | tr :: nNe :: nTe :: rows :: cols :: rest =>
+      let (ne, rest) := takeN (pN nNe) rest
+      let (te, rest) := takeN (pN nTe) rest
+      let (fl, rest) := takeN (pN rows * pN cols) rest
+      let rate := (List.range (pN rows)).map fun i => (List.range (pN cols)).map fun j => fl.getD (i * pN cols + j) "?"
+      let (more, rest) := readCxTrs n rest
+      ((tr, { ne := ne, te := te, rate := rate }) :: more, rest)
+    | _ => ([], [])
+
+def readCxChs : Nat → List String → List (Int × List (String × Rate15 String)) × List String
+  | 0, ts => ([], ts)
+  | n + 1, ts =>
+    match ts with
+    | q :: nTr :: rest =>
+      let (trs, rest) := readCxTrs (pN nTr) rest
+      let (more, rest) := readCxChs n rest
+      ((pI q, trs) :: more, rest)
+    | _ => ([], [])
+
+def readCxEls : Nat → List String → List (String × List (Int × List (String × Rate15 String)))
+  | 0, _ => []
+  | n + 1, ts =>
+    match ts with
+    | el :: nCh :: rest =>
+      let (chs, rest) := readCxChs (pN nCh) rest
+      (el, chs) :: readCxEls n rest
+    | _ => []
+
+def showCx (l : List (String × List (Int × List (String × Rate15x3 String)))) : String :=
+  "!".intercalate (l.flatMap fun ec => ec.2.flatMap fun qt => qt.2.map fun tr =>
+    ec.1 ++ ";" ++ toString qt.1 ++ ";" ++ tr.1 ++ ";ne:" ++ vec tr.2.ne ++ ";te:" ++ vec tr.2.te ++ ";td:" ++ vec tr.2.td
+      ++ ";rate:" ++ "|".intercalate (tr.2.rate.map fun row => "/".intercalate (row.map vec)))
+
+def cmdCx (ts : List String) : String :=
+  match ts with
+  | nEl :: rest =>
+    match cx2dto3d (readCxEls (pN nEl) rest) with
+    | .error e => "err " ++ e.toString
+    | .ok o => "ok " ++ cxDonor.1 ++ " " ++ toString cxDonor.2 ++ " " ++ showCx o
+  | _ => "bad-args"
+
 def step (ts : List String) : String :=
   match ts with
   | ["tags"] => cmdTags
@@ -231,6 +280,7 @@ def step (ts : List String) : String :=
   | "adf15" :: r => cmd15 r
   | "adf12" :: r => cmd12 r
   | "adf11" :: r => cmd11 r
+  | "cx3d" :: r => cmdCx r
   | _ => "bad-op"
 
 def main : IO UInt32 := do
